@@ -3,6 +3,7 @@ package s3db
 import (
 	"context"
 	"fmt"
+	"net/http"
 	"strings"
 	"sync"
 	"time"
@@ -97,7 +98,12 @@ type S3Options struct {
 }
 
 func getS3(endpoint string) (*s3.S3, error) {
-	config := aws.Config{}
+	// Every session gets an HTTP client of its own: when AWS_CA_BUNDLE is set
+	// the SDK installs the bundle into the session's client while the session
+	// is created, and the default is the process-wide http.DefaultClient that
+	// other connections are creating sessions with, and sending requests
+	// through, at the same time.
+	config := aws.Config{HTTPClient: &http.Client{}}
 	if endpoint != "" {
 		config.Endpoint = &endpoint
 		config.S3ForcePathStyle = aws.Bool(true)
